@@ -75,14 +75,20 @@ class ASFBaseAttribute(object):
         name += ")"
         return name
 
-    def render(self, name):
+    def _render_name(self, name):
         name = name.encode("utf-16-le") + b"\x00\x00"
+        if len(name) > 0xFFFF:
+            raise ASFError("attribute name too long")
+        return name
+
+    def render(self, name):
+        name = self._render_name(name)
         data = self._render()
         return (struct.pack("<H", len(name)) + name +
                 struct.pack("<HH", self.TYPE, len(data)) + data)
 
     def render_m(self, name):
-        name = name.encode("utf-16-le") + b"\x00\x00"
+        name = self._render_name(name)
         if self.TYPE == 2:
             data = self._render(dword=False)
         else:
@@ -91,7 +97,7 @@ class ASFBaseAttribute(object):
                             self.TYPE, len(data)) + name + data)
 
     def render_ml(self, name):
-        name = name.encode("utf-16-le") + b"\x00\x00"
+        name = self._render_name(name)
         if self.TYPE == 2:
             data = self._render(dword=False)
         else:
